@@ -22,6 +22,13 @@ CLAIMED = {
          "ignore unsupported selectors, and are not restricted by margins/DECOM (they do not occur in the range predicates). All "
          "geometries <= 65535^2, all cursor positions incl. pending wrap, all selectors/counts in {absent} U [0,9999].",
     design="5 C07", technique="Verus contracts + loop invariants on the verbatim bodies (one type-checked Box<dyn>->Range rewrite in erase_in_line)"),
+ 'C13': dict(
+    text="Deductive proof that insert_characters / delete_characters produce, for every cell of the grid, exactly the list-splice "
+         "result of the statement (blank default cells inserted at the cursor / appended at the right end, the rest of the row shifted "
+         "by the count, every other row and the cursor untouched), for never-written as well as materialised rows, and that they "
+         "re-establish the representation invariant `no cell is stored outside the visible grid` -- which is what makes 'discarded "
+         "characters never reappear' a per-call obligation instead of a statement about edit sequences. IRM drawing is draw()'s contract (C04).",
+    design="5 C13", technique="Verus contracts + loop invariants over the row map on the verbatim bodies; wf item 'no hidden cells' as pre/postcondition"),
 }
 NA = {}
 checks = []
